@@ -110,6 +110,9 @@ pub fn judge(prop: Prop, bytes: &[u8], observed: &PRes<String>, nt: NonTrivial, 
 
 /// `messages::parse(bytes)` against the reference.
 pub fn check_bytes(prop: Prop, cfg: &'static dyn Config, bytes: &[u8], nt: NonTrivial, rec: &mut Rec) -> Verdict {
+    if cfg.name() == "none" && crate::props::c18::decode_exceeds(bytes) {
+        return Verdict::Excluded("above a fixed capacity of the no-allocator build (C18 decides those)");
+    }
     let obs = cfg.parse_msg(bytes);
     judge(prop, bytes, &obs, nt, rec)
 }
@@ -127,6 +130,9 @@ pub fn check_sentence_path(prop: Prop, cfg: &'static dyn Config, chars: &[u8], f
         Some(b) => b,
         None => return Verdict::Excluded("payload characters outside the armouring alphabet"),
     };
+    if cfg.name() == "none" && crate::props::c18::decode_exceeds(&bytes) {
+        return Verdict::Excluded("above a fixed capacity of the no-allocator build (C18 decides those)");
+    }
     let mut p = cfg.new_parser();
     let mut last = None;
     if cuts.is_empty() {
